@@ -8,12 +8,12 @@ CORE = "MC_core.tla"
 
 # model-checking configurations: name -> (quick MaxDepth, thorough MaxDepth)
 MC_DEPTH = {
-    "MC_relay": (5, 7), "MC_relayB": (8, 10), "MC_time": (8, 10), "MC_iso": (5, 6), "MC_v6": (6, 7), "MC_mtu": (4, 5),
+    "MC_relay": (5, 7), "MC_relayB": (8, 10), "MC_time": (8, 10), "MC_iso": (5, 6), "MC_v6": (6, 7), "MC_mtu": (4, 5), "MC_resv": (5, 6),
 }
 # generation slices: name -> (quick MaxDepth, thorough MaxDepth)
 GEN_DEPTH = {
     "GEN_relayA": (6, 7), "GEN_relayB": (6, 7), "GEN_relayD": (4, 5), "GEN_time": (7, 8), "GEN_users": (5, 6),
-    "GEN_iso": (4, 5), "GEN_v6": (4, 5), "GEN_v6strict": (5, 6), "GEN_mtu": (4, 4), "GEN_mtu1200": (4, 4),
+    "GEN_iso": (4, 5), "GEN_v6": (4, 5), "GEN_v6strict": (5, 6), "GEN_mtu": (4, 4), "GEN_mtu1200": (4, 4), "GEN_resv": (4, 5),
 }
 
 
@@ -229,7 +229,7 @@ PROPS = {
                              "NOT decided by this family of technique: data races (a TLA+ model has no memory model; the thorough tier runs the same replays under the race detector, which only monitors the schedules replayed) and lock release over all control-flow paths (only the paths the generated behaviours drive)",
                              "call-outs that take time while the library holds a lock (OnPermissionDeleted, OnChannelDeleted, OnPermissionCreated on the ChannelBind path) cannot take virtual time (synctest does not see mutex waits); they are gated, not slept in"]),
     "C19": dict(title="responses correlated, truthful, idempotent", level="model_checking",
-                run=core_run(["MC_time", "MC_iso"], ["GEN_time", "GEN_users", "GEN_iso", "GEN_v6", "GEN_v6strict"]),
+                run=core_run(["MC_time", "MC_iso", "MC_resv"], ["GEN_time", "GEN_users", "GEN_iso", "GEN_v6", "GEN_v6strict", "GEN_resv"]),
                 assumptions=BASE_ASSUME),
 }
 
